@@ -30,7 +30,9 @@ def features(binary, workdir, tier, seed):
     cap, _ = gen.run_generator("GenCapture", workdir / "g_capture", dict(), timeout=300)
     groups["capture"] = cap
     names, _ = gen.run_generator("GenNames", workdir / "g_names", dict(), timeout=300)
-    groups["names"] = rnd.sample(names, min(len(names), 120))
+    special = [c for c in names if c["role"] in ("classname", "method", "method_twice")]     # label-like names, a method declared twice
+    rest = [c for c in names if c["role"] not in ("classname", "method", "method_twice")]
+    groups["names"] = special + rnd.sample(rest, min(len(rest), 120))
     for mod, light, sel in (("GenObj", "GenObjLight", "GenObjSel"), ("GenHeap", "GenHeapLight", "GenHeapSel")):
         one, _ = gen.run_generator(mod, workdir / f"g_{mod}", dict(MaxLen=1), cfg=light, timeout=900)
         one = [c for c in one if len(c["hist"]) == 1]
@@ -76,4 +78,27 @@ def faults(workdir):
                     (d / f"{n}.ms").write_text("\n".join(lines) + "\n")
             if (d / "main.ms").exists():
                 out.append(d / "main.ms")
+    return out
+
+
+def sizes(workdir, tier, seed):
+    """Programs whose one string literal is long (GenSize.tla): a record / text line around 4 KiB, 8 KiB, 64 KiB."""
+    import random
+    from . import gen
+    workdir = Path(workdir)
+    workdir.mkdir(parents=True, exist_ok=True)
+    cases, _ = gen.run_generator("GenSize", workdir / "g_size", dict(), timeout=300)
+    cases.sort(key=lambda c: (c["unit"], c["count"], c["pad"]))
+    if tier == "quick":
+        cases = random.Random(seed).sample(cases, min(len(cases), 150))
+    sub = {"~E~": "\u00e9", "~J~": "\u65e5", "~M~": "\U0001F642"}
+    out = []
+    for c in cases:
+        unit = c["unit"]
+        for k, v in sub.items():
+            unit = unit.replace(k, v)
+        d = workdir / "p" / f"{c['unit'].strip('~').replace(chr(92), 'bs').replace(chr(34), 'q').replace(' ', '_')}-{c['count']}-{c['pad']}"
+        d.mkdir(parents=True, exist_ok=True)
+        (d / "main.ms").write_text('print "S"\nx = "' + "p" * c["pad"] + unit * c["count"] + '"\nprint x.len()\nprint x\nprint "E"\n', encoding="utf-8")
+        out.append(d / "main.ms")
     return out
